@@ -94,7 +94,7 @@ def _cmp_doc(w, doc, ref, meta, oracle, what):
 def _cmp_table(w, t2, ref, meta, oracle, what):
     msg = coherence(t2, w.absent_id())
     if msg:
-        w.fail('coherence', '%s: %s' % (what, msg))
+        w.fail(oracle + '.incoherent', '%s: %s' % (what, msg))
     s = Snap(t2)
     exp = ref.copy()
     exp.md = [_json_md(ref.md[0]), _json_md(ref.md[1])]
